@@ -312,6 +312,8 @@ def run(ctx: Ctx):
     leanproj.check_theorems(ctx, MODULE, THEOREMS)
     from .registry import THEOREMS_C08B
     leanproj.check_theorems(ctx, "PyseqmVerif.Properties.C10b", THEOREMS_C08B)
+    from .registry import THEOREMS_C08C
+    leanproj.check_theorems(ctx, "PyseqmVerif.Properties.C08b", THEOREMS_C08C)
     drv = leanproj.Driver()
     try:
         try:
